@@ -94,6 +94,14 @@ theorem drop_preserves_key {t t' : TType} {fields : List String} (h : TableType.
 theorem explode_preserves_key {t t' : TType} {n : String} (h : explode t n = some t') :
     t'.key = t.key ∧ keyType t' = keyType t := explode_key h
 
+/-- the typing rule of `TableUnion`: the implied type is the reported one and all children carry its row type and key -/
+theorem union_children_agree {unify : Bool} {ts : List TType} {t : TType} (h : unionIR unify ts = some t) :
+    unionReported unify ts = some t ∧
+      ∃ cs, unionChildren unify ts = some (t :: cs) ∧ ∀ c ∈ cs, c.row = t.row ∧ c.key = t.key := unionIR_spec h
+
+theorem join_keeps_left_key {l r t : TType} (h : TableType.join l r = some t) :
+    t.key = l.key ∧ t.globals = l.globals ++ r.globals := join_key h
+
 theorem orderBy_clears_key (t : TType) : (orderBy t).key = [] ∧ (orderBy t).row = t.row := orderBy_key t
 
 /-! ## non-vacuity -/
@@ -110,5 +118,16 @@ example : imputeType (.list (.cons (.int 1) (.cons (.float 2) (.cons .none (.con
 
 example : annotate range [("x", .int32)] = some ⟨[], [("idx", .int32), ("x", .int32)], ["idx"]⟩ := by decide
 example : annotate range [("idx", .int64)] = none := by decide
+
+/-- three tables, `a : int32`, `a : int64`, no `a`: with `unify=True` every child gets `a : int64` and the union is well typed -/
+example : unionIR true [⟨[], [("idx", .int32), ("a", .int32)], ["idx"]⟩, ⟨[], [("idx", .int32), ("a", .int64)], ["idx"]⟩,
+    ⟨[], [("idx", .int32)], ["idx"]⟩] = some ⟨[], [("idx", .int32), ("a", .int64)], ["idx"]⟩ := by decide
+
+/-- KNOWN DEFECT shape: two tables with the same value fields and key whose rows differ only in where the key field sits —
+`unify=True` passes them on unchanged, the `Table` reports the first row type, the IR is ill-typed -/
+example : unionReported true [⟨[], [("idx", .int32), ("a", .int32)], ["idx"]⟩, ⟨[], [("a", .int32), ("idx", .int32)], ["idx"]⟩]
+      = some ⟨[], [("idx", .int32), ("a", .int32)], ["idx"]⟩ ∧
+    unionIR true [⟨[], [("idx", .int32), ("a", .int32)], ["idx"]⟩, ⟨[], [("a", .int32), ("idx", .int32)], ["idx"]⟩] = none := by
+  decide
 
 end HailVerif.C36
